@@ -117,6 +117,13 @@ func attrSummary(attrs []bgp.PathAttributeInterface) string {
 				cs = append(cs, c.String())
 			}
 			parts = append(parts, "cl["+strings.Join(cs, ",")+"]")
+		case *bgp.PathAttributeExtendedCommunities:
+			var cs []string
+			for _, c := range v.Value {
+				cs = append(cs, c.String())
+			}
+			sort.Strings(cs)
+			parts = append(parts, "ec["+strings.Join(cs, ",")+"]")
 		case *bgp.PathAttributeMpReachNLRI:
 			parts = append(parts, "mpnh"+v.Nexthop.String())
 		case *bgp.PathAttributeMpUnreachNLRI:
@@ -230,6 +237,8 @@ type world struct {
 	polSets  oc.DefinedSets
 	polDefs  []oc.PolicyDefinition
 	polGen   int
+	vrfGen   int
+	vrfs     map[string]bool
 }
 
 func v4(s string) netip.Addr { return netip.MustParseAddr(s) }
@@ -255,6 +264,15 @@ func (w *world) neighbor(n sx.Node) *oc.Neighbor {
 	nc.AfiSafis = oc.AfiSafis{{Config: oc.AfiSafiConfig{AfiSafiName: oc.AFI_SAFI_TYPE_IPV4_UNICAST, Enabled: true}}}
 	if ok, _ := hasOpt(n, 3, "v6"); ok {
 		nc.AfiSafis = append(nc.AfiSafis, oc.AfiSafi{Config: oc.AfiSafiConfig{AfiSafiName: oc.AFI_SAFI_TYPE_IPV6_UNICAST, Enabled: true}})
+	}
+	if ok, _ := hasOpt(n, 3, "vpn"); ok {
+		nc.AfiSafis = append(nc.AfiSafis, oc.AfiSafi{Config: oc.AfiSafiConfig{AfiSafiName: oc.AFI_SAFI_TYPE_L3VPN_IPV4_UNICAST, Enabled: true}})
+	}
+	if ok, _ := hasOpt(n, 3, "rtc"); ok {
+		nc.AfiSafis = append(nc.AfiSafis, oc.AfiSafi{Config: oc.AfiSafiConfig{AfiSafiName: oc.AFI_SAFI_TYPE_RTC, Enabled: true}})
+	}
+	if ok, v := hasOpt(n, 3, "vrf"); ok {
+		nc.Config.Vrf = v
 	}
 	if ok, _ := hasOpt(n, 3, "rr"); ok {
 		nc.RouteReflector.Config.RouteReflectorClient = true
@@ -405,6 +423,12 @@ func (w *world) mkOpen(p *fakePeer, n sx.Node) (*bgp.BGPMessage, uint16) {
 	caps := []bgp.ParameterCapabilityInterface{bgp.NewCapRouteRefresh(), bgp.NewCapMultiProtocol(bgp.RF_IPv4_UC), bgp.NewCapFourOctetASNumber(p.as)}
 	if ok, _ := hasOpt(n, 2, "v6"); ok {
 		caps = append(caps, bgp.NewCapMultiProtocol(bgp.RF_IPv6_UC))
+	}
+	if ok, _ := hasOpt(n, 2, "vpn"); ok {
+		caps = append(caps, bgp.NewCapMultiProtocol(bgp.RF_IPv4_VPN))
+	}
+	if ok, _ := hasOpt(n, 2, "rtc"); ok {
+		caps = append(caps, bgp.NewCapMultiProtocol(bgp.RF_RTC_UC))
 	}
 	p.opt = &bgp.MarshallingOption{AddPath: map[bgp.Family]bgp.BGPAddPathMode{}}
 	sendOpt := &bgp.MarshallingOption{AddPath: map[bgp.Family]bgp.BGPAddPathMode{}}
@@ -617,6 +641,42 @@ func (w *world) obs() {
 		sort.Strings(in)
 		parts = append(parts, "(adjin "+k+" "+strings.Join(in, " ")+")")
 	}
+	// VPN: the global VPNv4 table and every VRF's view of it
+	var vpn []string
+	w.s.ListPath(apiutil.ListPathRequest{TableType: api.TableType_TABLE_TYPE_GLOBAL, Family: bgp.RF_IPv4_VPN}, func(prefix bgp.NLRI, paths []*apiutil.Path) {
+		var ps []string
+		for _, p := range paths {
+			src := "local"
+			if p.PeerAddress.IsValid() {
+				src = p.PeerAddress.String()
+			}
+			ps = append(ps, fmt.Sprintf("(%s %s %s)", src, sx.B(p.Best), attrSummary(p.Attrs)))
+		}
+		vpn = append(vpn, "("+prefix.String()+" "+strings.Join(ps, " ")+")")
+	})
+	if len(vpn) > 0 {
+		sort.Strings(vpn)
+		parts = append(parts, "(vpnrib "+strings.Join(vpn, " ")+")")
+	}
+	vnames := make([]string, 0, len(w.vrfs))
+	for k := range w.vrfs {
+		vnames = append(vnames, k)
+	}
+	sort.Strings(vnames)
+	for _, vn := range vnames {
+		var rs []string
+		w.s.ListPath(apiutil.ListPathRequest{TableType: api.TableType_TABLE_TYPE_VRF, Name: vn, Family: bgp.RF_IPv4_UC}, func(prefix bgp.NLRI, paths []*apiutil.Path) {
+			for _, p := range paths {
+				src := "local"
+				if p.PeerAddress.IsValid() {
+					src = p.PeerAddress.String()
+				}
+				rs = append(rs, fmt.Sprintf("(%s %s %s)", prefix.String(), src, attrSummary(p.Attrs)))
+			}
+		})
+		sort.Strings(rs)
+		parts = append(parts, "(vrib "+vn+" "+strings.Join(rs, " ")+")")
+	}
 	// once a policy has been configured: the Adj-RIB-In as received (the listing above is after import policy)
 	if w.polGen > 0 {
 		for _, k := range names {
@@ -632,6 +692,18 @@ func (w *world) obs() {
 		}
 	}
 	w.out = append(w.out, "(obs "+strings.Join(parts, " ")+")")
+}
+
+func rts(n sx.Node) []*api.RouteTarget {
+	var out []*api.RouteTarget
+	for _, t := range n.List {
+		if ec, err := bgp.ParseRouteTarget(t.Atom); err == nil {
+			if a, err := apiutil.MarshalRT(ec); err == nil {
+				out = append(out, a)
+			}
+		}
+	}
+	return out
 }
 
 // (policy import|export <default 0|1> (POLICY ...)): new definitions are added to everything defined so far (nothing the
@@ -775,6 +847,111 @@ func (w *world) step(n sx.Node) {
 		if p := w.peers[n.At(1).Atom]; p != nil {
 			w.s.ResetPeer(context.Background(), &api.ResetPeerRequest{Address: p.addr.String()})
 		}
+	case "addvrf":
+		// (addvrf name rd (import rt...) (export rt...))
+		w.vrfGen++
+		rd, err := bgp.ParseRouteDistinguisher(n.At(2).Atom)
+		if err != nil {
+			w.out = append(w.out, "(vrf-error rd)")
+			return
+		}
+		ard, _ := apiutil.MarshalRD(rd)
+		v := &api.Vrf{Name: n.At(1).Atom, Rd: ard, Id: uint32(w.vrfGen), ImportRt: rts(n.At(3)), ExportRt: rts(n.At(4))}
+		if err := w.s.AddVrf(context.Background(), &api.AddVrfRequest{Vrf: v}); err != nil {
+			w.out = append(w.out, "(vrf-error "+strings.ReplaceAll(err.Error(), " ", "_")+")")
+		} else {
+			w.vrfs[n.At(1).Atom] = true
+		}
+	case "delvrf":
+		if err := w.s.DeleteVrf(context.Background(), &api.DeleteVrfRequest{Name: n.At(1).Atom}); err != nil {
+			w.out = append(w.out, "(vrf-error "+strings.ReplaceAll(err.Error(), " ", "_")+")")
+		} else {
+			delete(w.vrfs, n.At(1).Atom)
+		}
+	case "vrfadd", "vrfdel":
+		// (vrfadd name prefix): a route originated in the VRF
+		nl, _ := bgp.NewIPAddrPrefix(netip.MustParsePrefix(n.At(2).Atom))
+		nh, _ := bgp.NewPathAttributeNextHop(v4("0.0.0.0"))
+		ps := []*apiutil.Path{{Family: bgp.RF_IPv4_UC, Nlri: nl, Attrs: []bgp.PathAttributeInterface{bgp.NewPathAttributeOrigin(0), nh}}}
+		var err error
+		if n.At(0).Atom == "vrfadd" {
+			_, err = w.s.AddPath(apiutil.AddPathRequest{VRFID: n.At(1).Atom, Paths: ps})
+		} else {
+			err = w.s.DeletePath(apiutil.DeletePathRequest{VRFID: n.At(1).Atom, Paths: ps})
+		}
+		if err != nil {
+			w.out = append(w.out, "(vrfpath-error)")
+		}
+	case "vpn":
+		// (vpn p (a rd prefix label (rt...)) | (w rd prefix))
+		if p := w.peers[n.At(1).Atom]; p != nil && p.conn != nil {
+			for _, r := range n.List[2:] {
+				rd, _ := bgp.ParseRouteDistinguisher(r.At(1).Atom)
+				var m *bgp.BGPMessage
+				if r.At(0).Atom == "w" {
+					nl, _ := bgp.NewLabeledVPNIPAddrPrefix(netip.MustParsePrefix(r.At(2).Atom), *bgp.NewMPLSLabelStack(0x800000>>4), rd)
+					mp, _ := bgp.NewPathAttributeMpUnreachNLRI(bgp.RF_IPv4_VPN, []bgp.PathNLRI{{NLRI: nl}})
+					m = bgp.NewBGPUpdateMessage(nil, []bgp.PathAttributeInterface{mp}, nil)
+				} else {
+					nl, _ := bgp.NewLabeledVPNIPAddrPrefix(netip.MustParsePrefix(r.At(2).Atom), *bgp.NewMPLSLabelStack(uint32(r.At(3).Uint())), rd)
+					mp, _ := bgp.NewPathAttributeMpReachNLRI(bgp.RF_IPv4_VPN, []bgp.PathNLRI{{NLRI: nl}}, p.addr)
+					var ecs []bgp.ExtendedCommunityInterface
+					for _, t := range r.At(4).List {
+						if ec, err := bgp.ParseRouteTarget(t.Atom); err == nil {
+							ecs = append(ecs, ec)
+						}
+					}
+					attrs := []bgp.PathAttributeInterface{bgp.NewPathAttributeOrigin(0),
+						bgp.NewPathAttributeAsPath([]bgp.AsPathParamInterface{bgp.NewAs4PathParam(bgp.BGP_ASPATH_ATTR_TYPE_SEQ, []uint32{p.as})}), mp}
+					if p.as == uint32(w.global.At(1).Uint()) {
+						attrs[1] = bgp.NewPathAttributeAsPath(nil)
+						attrs = append(attrs, bgp.NewPathAttributeLocalPref(100))
+					}
+					if len(ecs) > 0 {
+						attrs = append(attrs, bgp.NewPathAttributeExtendedCommunities(ecs))
+					}
+					m = bgp.NewBGPUpdateMessage(nil, attrs, nil)
+				}
+				p.send(m, p.sendOpt)
+			}
+		}
+	case "rtm":
+		// (rtm p (a asn rt|default) | (w asn rt|default)): Route Target membership NLRI from the peer
+		if p := w.peers[n.At(1).Atom]; p != nil && p.conn != nil {
+			for _, r := range n.List[2:] {
+				var nl *bgp.RouteTargetMembershipNLRI
+				if r.At(2).Atom == "default" {
+					nl = bgp.NewRouteTargetMembershipNLRI(0, nil)
+				} else {
+					ec, _ := bgp.ParseRouteTarget(r.At(2).Atom)
+					nl = bgp.NewRouteTargetMembershipNLRI(uint32(r.At(1).Uint()), ec)
+				}
+				var m *bgp.BGPMessage
+				if r.At(0).Atom == "w" {
+					mp, _ := bgp.NewPathAttributeMpUnreachNLRI(bgp.RF_RTC_UC, []bgp.PathNLRI{{NLRI: nl}})
+					m = bgp.NewBGPUpdateMessage(nil, []bgp.PathAttributeInterface{mp}, nil)
+				} else {
+					mp, _ := bgp.NewPathAttributeMpReachNLRI(bgp.RF_RTC_UC, []bgp.PathNLRI{{NLRI: nl}}, p.addr)
+					attrs := []bgp.PathAttributeInterface{bgp.NewPathAttributeOrigin(0),
+						bgp.NewPathAttributeAsPath([]bgp.AsPathParamInterface{bgp.NewAs4PathParam(bgp.BGP_ASPATH_ATTR_TYPE_SEQ, []uint32{p.as})}), mp}
+					if p.as == uint32(w.global.At(1).Uint()) {
+						attrs[1] = bgp.NewPathAttributeAsPath(nil)
+						attrs = append(attrs, bgp.NewPathAttributeLocalPref(100))
+					}
+					m = bgp.NewBGPUpdateMessage(nil, attrs, nil)
+				}
+				p.send(m, p.sendOpt)
+			}
+		}
+	case "eorf":
+		// (eorf p vpn|rtc): End-of-RIB for a family
+		if p := w.peers[n.At(1).Atom]; p != nil && p.conn != nil {
+			f := bgp.RF_IPv4_VPN
+			if n.At(2).Atom == "rtc" {
+				f = bgp.RF_RTC_UC
+			}
+			p.send(bgp.NewEndOfRib(f), p.sendOpt)
+		}
 	case "policy":
 		w.policy(n)
 	case "softin", "softout", "softboth":
@@ -827,7 +1004,7 @@ func runScenario(t *testing.T, line string) (out string) {
 			s = server.NewBgpServer()
 		}
 		go s.Serve()
-		w = &world{t0: time.Now(), start: time.Now().Unix(), t: t, s: s, peers: map[string]*fakePeer{}, global: g, local: v4("10.0.0.254"), peerConf: map[string]*oc.Neighbor{}}
+		w = &world{t0: time.Now(), start: time.Now().Unix(), t: t, s: s, peers: map[string]*fakePeer{}, global: g, local: v4("10.0.0.254"), peerConf: map[string]*oc.Neighbor{}, vrfs: map[string]bool{}}
 		global := &api.Global{Asn: uint32(g.At(1).Uint()), RouterId: g.At(2).Atom, ListenPort: -1}
 		if err := s.StartBgp(context.Background(), &api.StartBgpRequest{Global: global}); err != nil {
 			w.out = append(w.out, "(startbgp-error)")
